@@ -251,6 +251,10 @@ class R:
             self.P = homogeneous("LINSPACE", [PMIN * GPA, (PMIN + DP * (NTV - 1)) * GPA, NTV], (0, 1))
             self.V = linear("V2P1D", [self.VG, self.PG, self.P], 0, same_scale_groups=((1, 2),))
             self.Fc = linear("V2P1D", [self.FG, self.PG, self.P], 0, same_scale_groups=((1, 2),))
+            # "the fitted energy at the reported volume" read literally: the fit of the input energies evaluated at V(P) (instead of F(V) carried to the pressure grid
+            # by the same interpolation as V) - both are the property's F column
+            xv = s(at0(VOLS), self.V)
+            self.Fc_alt = linear("FIT", [fit_abscissae(self.xs, xv)[0], ENER, fit_abscissae(self.xs, xv)[1], sp.Integer(2)], 1)
         self.x2 = s(at0(VOLS2), VOLS2)
         self.xr = s(at0(VOLS2), self.V)
 
@@ -290,7 +294,7 @@ def r_eos(ctx, model):
             if col not in df.cols:
                 continue
             got = df.cols[col]
-            ctx.check(eq(got, wv), f"mode {interp}: column {col}", w, expected=short(wv, 400), found=short(got, 400),
+            ctx.check(eq(got, wv) or (col == "F" and hasattr(ref, "Fc_alt") and eq(got, ref.Fc_alt / U.eV)), f"mode {interp}: column {col}", w, expected=short(wv, 400), found=short(got, 400),
                       explanation=f"run-static -I {interp}: column {col} is not "
                                   + {"V": "the reported volume in A^3", "F": "the fitted (input, in mode none) energy at the reported volume in eV",
                                      "P": "-dF_fit/dV of the second-order finite-strain fit in GPa"}[col],
@@ -324,6 +328,12 @@ def r_table(ctx, model):
         ev = Ev(model)
         ref = R(ev, interp)
         rho = CELLM / (U.NA * ref.V)
+        # the EoS columns are the same with and without a static table (the table's own volumes must not reach the energy fit)
+        gotF = df.cols.get("F")
+        ctx.check(gotF is not None and (eq(gotF, ref.Fc / U.eV) or (hasattr(ref, "Fc_alt") and eq(gotF, ref.Fc_alt / U.eV))), f"mode {interp}: column F with a static table", w,
+                  expected=short(ref.Fc / U.eV, 300), found=short(gotF, 300) if gotF is not None else "missing",
+                  explanation=f"run-static -I {interp} with a static table: column F is not the fit of the INPUT energies over the INPUT volumes at the reported volume "
+                              f"(the table's volume column, or another rebound name, reaches the energy fit)", key=f"{interp}.F.table")
         ctx.check("density" in df.cols and eq(df.cols.get("density", 0), rho / GCM3), f"mode {interp}: density", w,
                   expected=short(rho / GCM3), found=short(df.cols.get("density", "missing")),
                   explanation="density is not (cell mass in g/mol)/(N_A V) in g/cm^3 at the row's volume", key=f"{interp}.density")
